@@ -33,6 +33,7 @@ package c15
 import (
 	"bytes"
 	"fmt"
+	"strings"
 	"testing"
 	"time"
 
@@ -341,6 +342,13 @@ func (r *runner) attach(name string, k Cons, q int, sdpReady bool) (*attached, *
 	rtmp.VerifSetWriteChanSize(q)
 	rtsp.VerifSetCommandSessionWriteChanSize(q)
 	httpflv.SubSessionWriteChanSize, httpts.SubSessionWriteChanSize = q, q
+	// an HTTP consumer whose stall is to be ended by the sweep gets a long write timeout (like RTMP / RTSP sessions
+	// have), so that the sweep is the only thing that can disconnect it; all others time out after 150 ms
+	wt := 150
+	if k.Stall && k.End == "sweep" {
+		wt = 10000
+	}
+	httpflv.SubSessionWriteTimeoutMs, httpts.SubSessionWriteTimeoutMs = wt, wt
 	switch k.Kind {
 	case "rtmp":
 		a.rc = newRtmpSub(s, "live", name)
@@ -761,9 +769,17 @@ func run(c Case) *pbt.Violation {
 		}
 		switch a.spec.End {
 		case "sweep":
+			judged := nothingWritten[a.conn.LocalAddr().String()] || flowing[a]
+			// a sweep disposes a session synchronously (its connection is closed before the sweep returns): lal's end
+			// still open and the session still listed in the group after the sweeps = it was not disconnected
+			if judged && !waitGone(a, 2*time.Second) {
+				if st := inGroupStat(s, a); strings.HasPrefix(st, "yes") {
+					return pbt.V("S4/not-disconnected-by-sweep/"+a.spec.Kind, "stalled consumer %d (%s, stalled at %d) is still connected after two (and a third) liveness sweeps during which nothing could be written to it (lal has not closed its end; bytes received %d, unread %d; in lal's group statistics: %s)", i, a.spec.Kind, a.spec.StallAt, a.conn.TotalReceived(), a.conn.Pending(), st)
+				}
+			}
 			a.conn.SetRecvWindow(-1) // let the client see the close
 			a.pc.set(-1)
-			if !nothingWritten[a.conn.LocalAddr().String()] && !flowing[a] {
+			if !judged {
 				pbt.Count("sweep-not-judged-bytes-were-accounted", 1)
 				continue
 			}
